@@ -136,6 +136,12 @@ static unsigned long *fwd_plist(const std::string &v) {
   return l->data();
 }
 
+// the application of every forwarding case is a gateway: its message handler passes each received message on to a second bus object
+// (SendMsg rewrites the mutable Source / Destination of the object it is given) - what the library forwards in Actisense format must
+// still be the message as it was received (seed C17-16)
+static FwdNode *g_gw = 0;
+static void gw_handler(const tN2kMsg &m) { if (g_gw) g_gw->SendMsg(m); }
+
 static void run_fwd(const std::string &line) {
   size_t bar = line.find('|');
   if (bar == std::string::npos) { printf("badcase\n"); return; }
@@ -159,7 +165,14 @@ static void run_fwd(const std::string &line) {
   n->SetForwardOwnMessages(kv["own"] == "1");
   n->SetForwardSystemMessages(kv["sys"] == "1");
   n->SetForwardOnlyKnownMessages(kv["ok"] == "1");
-  for (int k = 0; k < 700; k++) { n->ParseMessages(); verif_now_ms++; }
+  FwdNode *gw = new FwdNode();
+  gw->SetN2kCANSendFrameBufSize(100);
+  gw->SetMode(tNMEA2000::N2km_NodeOnly, 50);
+  gw->SetForwardStream(0);
+  for (int k = 0; k < 700; k++) { n->ParseMessages(); gw->ParseMessages(); verif_now_ms++; }
+  gw->SetHeartbeatIntervalAndOffset(0, 0);
+  g_gw = gw;
+  n->SetMsgHandler(gw_handler);
   n->SetHeartbeatIntervalAndOffset(0, 0);
   n->IsAddressClaimStarted(0);
   verif_now_ms = t0;
@@ -222,6 +235,7 @@ static void run_fwd(const std::string &line) {
   printf("%s\n", out.c_str());
   free(g);
   delete rd;
+  g_gw = 0;
   // the node is deliberately not destroyed: tNMEA2000 has no destructor that releases its buffers
 }
 
